@@ -9,7 +9,7 @@ import sympy as sp
 from . import units as U
 from .model import Model, dotted_name, src, body_wo_doc
 from .report import AnalysisError
-from .sym import (EnumV, Opaque, Ev, Obj, Tup, LibV, UnitReg, FuncV, AVG, as_sym, is_sym, LIB, DictV, SliceV, Indexed, ClsV,
+from .sym import (ArrV, EnumV, Opaque, Ev, Obj, Tup, LibV, UnitReg, FuncV, AVG, as_sym, is_sym, LIB, DictV, SliceV, Indexed, ClsV,
                   _const_int)
 
 P = dict(positive=True)
@@ -114,38 +114,66 @@ def c_intrinsic(ev, args, kwargs):
     return KeyObj("c" + voigt_canon("".join(vals)))
 
 
+_ROLES_CACHE = {}
+
+
+def fold_interpolate_modes(model: Model, method="spline", nq=2, np_=4, ctx=None):
+    """fold cij.core.mode_gamma.interpolate_modes for one method name on a 2 q-point x 4 mode table whose frequency
+    columns are atoms FR_j_k (one vector over the volumes each); the per-mode helpers are capturing atoms.
+    Returns (returned value, list of helper calls)."""
+    from .dfmodel import SeqV, DF_LIB
+    MGm = "cij.core.mode_gamma"
+    MV, VA, ORD = sp.Symbol("MV", positive=True), sp.Symbol("VA", positive=True), sp.Symbol("ORDER", positive=True, integer=True)
+    qps = Tup([Obj("cij.io.traditional.qha_input:QPointData",
+                   {"coord": sp.Symbol(f"QC{j}"), "modes": Tup([sp.Symbol(f"FR_{j}_{k}", positive=True) for k in range(np_)], "list"),
+                    "__fields__": ["coord", "modes"]}) for j in range(nq)], "list")
+    vol = Obj("cij.io.traditional.qha_input:VolumeData", {"volume": MV, "q_points": qps, "energy": sp.Symbol("EN"), "pressure": sp.Symbol("PR")})
+    inp = Obj("cij.io.traditional.qha_input:QHAInputData", {"nv": sp.Symbol("NV", positive=True, integer=True), "nq": sp.Integer(nq), "np": sp.Integer(np_),
+                                                              "volumes": SeqV(vol)})
+    calls = []
+    f = model.func(f"{MGm}:interpolate_modes")
+    mod = model.mods[MGm]
+    intr = {}
+    for q in mod.funcs:
+        if q.startswith("interpolate_mode_") and "." not in q:
+            def helper(ev, a, k, _q=q):
+                fd = mod.funcs[_q]
+                names = [x.arg for x in fd.args.args]
+                b = dict(zip(names, a))
+                for kk, v in k.items():
+                    if kk not in names or kk in b:
+                        raise AnalysisError(f"{_q} called with a bad keyword {kk}")
+                    b[kk] = v
+                calls.append((_q, b))
+                tag = f"{_q}[{b.get('method')}]" if "method" in b else _q
+                args = [as_sym(b.get(nm)) for nm in names[:3]]
+                return Tup([sp.Function(f"OUT{r}_{tag}")(*args, as_sym(b.get("order", sp.Symbol("DEFAULT")))) for r in range(3)])
+            intr[f"{MGm}:{q}"] = helper
+    intr["numpy.array"] = lambda ev, a, k: DF_LIB["numpy.array"](ev, a, k, None, None)
+    ev = Ev(model, {}, intr, ctx=ctx)
+    out = ev.call_def(f, mod, f"{MGm}:interpolate_modes", [inp, VA], {"method": method, "order": ORD})
+    return out, calls, (MV, VA, ORD)
+
+
 def interpolate_modes_roles(model: Model):
-    """Return, by position of interpolate_modes' return tuple, the role index 0 (omega),
-    1 (gamma), 2 (V dgamma/dV).  Helpers are required (by C11's R11.1) to return roles in
-    the order (0,1,2); here only the array wiring is read."""
-    f = model.func("cij.core.mode_gamma:interpolate_modes")
-    roles = {}
-    n_assign = 0
-    for st in ast.walk(f):
-        if (isinstance(st, ast.Assign) and len(st.targets) == 1 and isinstance(st.targets[0], ast.Tuple)
-                and isinstance(st.value, ast.Call)):
-            callee = dotted_name(st.value.func) or ""
-            if not callee.startswith("interpolate_mode_"):
-                continue
-            elts = st.targets[0].elts
-            if len(elts) != 3 or not all(isinstance(e, ast.Subscript) and isinstance(e.value, ast.Name) for e in elts):
-                raise AnalysisError(f"unrecognised target of {callee}(...) in interpolate_modes", f"line {st.lineno}")
-            n_assign += 1
-            for pos, e in enumerate(elts):
-                name = e.value.id
-                if roles.setdefault(name, pos) != pos:
-                    raise AnalysisError("inconsistent-roles", name)
-    if n_assign == 0:
-        raise AnalysisError("no helper call found in interpolate_modes")
-    rets = [s for s in ast.walk(f) if isinstance(s, ast.Return)]
-    if len(rets) != 1 or not isinstance(rets[0].value, ast.Tuple):
-        raise AnalysisError("interpolate_modes does not return one tuple")
-    out = []
-    for e in rets[0].value.elts:
-        if not isinstance(e, ast.Name) or e.id not in roles:
-            raise AnalysisError(f"interpolate_modes returns {src(e)}, which no helper fills")
-        out.append(roles[e.id])
-    return out, n_assign
+    """Return, by position of interpolate_modes' return tuple, the role index 0 (omega), 1 (gamma), 2 (V dgamma/dV)
+    (helpers return roles in the order (0,1,2): C11's R11.1), read off the folded function; second value: number of
+    helper calls seen for one non-acoustic mode table (2 x 4 -> 5 calls)."""
+    if "roles" in _ROLES_CACHE and _ROLES_CACHE["roles"][0] is model:
+        return _ROLES_CACHE["roles"][1]
+    out, calls, _ = fold_interpolate_modes(model, "spline")
+    if not isinstance(out, Tup) or len(out.items) != 3 or not all(isinstance(x, ArrV) for x in out.items):
+        raise AnalysisError("interpolate_modes does not return three arrays")
+    roles = []
+    for arr in out.items:
+        cell = sp.sympify(arr.get((1, 0)))
+        name = str(getattr(cell, "func", ""))
+        if not name.startswith("OUT"):
+            raise AnalysisError(f"interpolate_modes returns an array that no helper fills: {cell}")
+        roles.append(int(name[3]))
+    res = (roles, len(calls))
+    _ROLES_CACHE["roles"] = (model, res)
+    return res
 
 
 ROLE_VALUE = {0: FREQ * U.UNIT_TABLE["cm"], 1: GAMMA, 2: VDR}
